@@ -232,6 +232,47 @@ class CVec(CSym):
                 raise SymFail("masked store with a partial or non-constant mask")
             self.storev(p, v)
             return T.const(0)
+        # ---- NEON
+        if name == "vaddq_u32":
+            return self.lanewise(lambda T, x, y: T.add(x, y), args[0], args[1])
+        if name == "veorq_u32":
+            return self.lanewise(asmsym.t_xor, args[0], args[1])
+        if name == "vorrq_u32":
+            return self.lanewise(asmsym.t_or, args[0], args[1])
+        if name.startswith("vreinterpretq_") or name.startswith("vreinterpret_"):
+            return args[0]
+        if name == "vrev32q_u16":
+            return LV([asmsym.rot(T, 16, x) for x in args[0].l])
+        if name in ("__builtin_neon_vshlq_n_v", "__builtin_neon_vshrq_n_v"):
+            k = self.imm(args[1])
+            return LV([asmsym.t_shift(T, "shl" if "vshl" in name else "shr", x, k) for x in args[0].l])
+        if name == "__builtin_neon_vsriq_n_v":
+            a, b, k = args[0], args[1], self.imm(args[2])
+            out = []
+            for x, y in zip(a.l, b.l):
+                tx = T.rev[x]
+                if not (tx[0] == "shl" and tx[1] >= 32 - k) and T.cval(x) is None:
+                    raise SymFail("vsri whose first operand does not have its low bits clear")
+                out.append(asmsym.t_or(T, x, asmsym.t_shift(T, "shr", y, k)))
+            return LV(out)
+        if name in ("vld1q_u8", "vld1q_u32", "__builtin_neon_vld1q_v"):
+            return self.loadv(args[0], 4)
+        if name in ("vst1q_u8", "vst1q_u32", "__builtin_neon_vst1q_v"):
+            self.storev(args[0], args[1])
+            return T.const(0)
+        if name in ("vld1q_dup_u32", "__builtin_neon_vld1q_dup_v"):
+            p = args[0]
+            v = get_path(p.cell.v, p.path) if p.path else p.cell.v
+            return LV([v] * 4)
+        if name == "vtrnq_u32":
+            a, b = args
+            return (LV([a.l[0], b.l[0], a.l[2], b.l[2]]), LV([a.l[1], b.l[1], a.l[3], b.l[3]]))
+        if name == "vget_low_u32":
+            return LV(args[0].l[:2])
+        if name == "vget_high_u32":
+            return LV(args[0].l[2:4])
+        if name == "vcombine_u32":
+            return LV(args[0].l + args[1].l)
         if name in ("_mm_prefetch", "__builtin_prefetch"):
             return T.const(0)
         return None
@@ -267,6 +308,21 @@ class CVec(CSym):
                 return r
         return None
 
+    def shufflevector(self, vals):
+        T = self.T
+        a, b, idx = vals[0], vals[1], [T.cval(x) for x in vals[2:]]
+        if not isinstance(a, LV) or a is not b and a.l != b.l or len(idx) != 4 * len(a) or any(i is None for i in idx):
+            raise SymFail("shufflevector form")
+        out = []
+        for d in range(len(a)):
+            bs = idx[4 * d:4 * d + 4]
+            lanes = {x // 4 for x in bs}
+            r = bs[0] % 4
+            if len(lanes) != 1 or [x % 4 for x in bs] != [(r + j) % 4 for j in range(4)]:
+                raise SymFail("shufflevector is not a whole-dword byte rotation")
+            out.append(asmsym.rot(T, 8 * r, a.l[lanes.pop()]))
+        return LV(out)
+
     def ev(self, e, env, depth, want_ptr=False):
         if e[0] == "un" and e[1] in ("++", "--", "post++", "post--"):
             cell, path = self.lv(e[2], env, depth)
@@ -278,7 +334,7 @@ class CVec(CSym):
             cell.v = set_path(cell.v, path, nv) if path else nv
             return nv if not e[1].startswith("post") else cur
         if e[0] == "sizeof":
-            sz = {"__m128i": 16, "__m256i": 32, "__m512i": 64, "uint32_t": 4, "uint8_t": 1, "uint64_t": 8}.get(e[1])
+            sz = {"__m128i": 16, "__m256i": 32, "__m512i": 64, "uint32x4_t": 16, "uint8x16_t": 16, "uint32_t": 4, "uint8_t": 1, "uint64_t": 8}.get(e[1])
             if sz is None:
                 raise SymFail("sizeof(%s)" % e[1])
             return self.T.const(sz)
